@@ -184,10 +184,31 @@ theorem jobsWF_addRefBy (s : St) (a b) (h : JobsWF s) : JobsWF (addRefBy s a b) 
 theorem jobsWF_delRefBy (s : St) (a b) (h : JobsWF s) : JobsWF (delRefBy s a b) := by jobs_simp h
 theorem jobsWF_inherit (s : St) (h : JobsWF s) : JobsWF (inherit s) := by jobs_simp h
 theorem jobsWF_invDuring (s : St) (a) (h : JobsWF s) : JobsWF (invalidatedDuringTaggingJob s a) := by jobs_simp h
-theorem jobsWF_detachConv (s : St) (a b) (h : JobsWF s) : JobsWF (detachConv s a b) := by jobs_simp h
 theorem jobsWF_attachConv (s : St) (a b) (h : JobsWF s) : JobsWF (attachConv s a b).1 := by jobs_simp h
 theorem jobsWF_markUpdate (s : St) (a b c) (h : JobsWF s) : JobsWF (markUpdate s a b c).1 := by jobs_simp h
 theorem jobsWF_getIndexesCopy (s : St) (n) (h : JobsWF s) : JobsWF (getIndexesCopy s n).1 := by jobs_simp h
+
+-- CHANGED (dropped): new helper; `outputDropped` ends with `startTagging`, which keeps flag and record in step
+theorem jobsWF_outputDropped (s : St) (ch) (h : JobsWF s) : JobsWF (outputDropped s ch) := by
+  unfold outputDropped
+  split
+  · dsimp only
+    apply jobsWF_startTagging
+    apply jobsWF_invDuring
+    apply jobsWF_inherit
+    exact h
+  · exact h
+
+-- CHANGED (dropped): takes the tagging choice; no longer a pure frame fact
+theorem jobsWF_detachConv (s : St) (a b) (ch : Option String) (h : JobsWF s) : JobsWF (detachConv s a b ch) := by
+  unfold detachConv
+  split
+  · exact h
+  · dsimp only
+    split
+    · apply jobsWF_outputDropped
+      exact h.congr rfl rfl rfl rfl rfl rfl rfl rfl
+    · exact h.congr rfl rfl rfl rfl rfl rfl rfl rfl
 
 theorem jobsWF_addTag (s : St) (a b c d) (st : Started) (h : JobsWF s) :
     JobsWF (step s (.addTag a b c d) st).1 := by
@@ -243,7 +264,7 @@ theorem jobsWF_updConv (s : St) (a b) (st : Started) (h : JobsWF s) :
     | (dsimp only
        apply jobsWF_startConverter
        apply jobsWF_foldl _ (fun s x hs => jobsWF_attachConv s _ _ hs)
-       apply jobsWF_foldl _ (fun s x hs => jobsWF_detachConv s _ _ hs)
+       apply jobsWF_foldl _ (fun s x hs => jobsWF_detachConv s _ _ _ hs)
        exact h)
 
 theorem jobsWF_markAdd (s : St) (a b) (st : Started) (h : JobsWF s) :
@@ -277,7 +298,7 @@ theorem jobsWF_delTag (s : St) (a) (st : Started) (h : JobsWF s) :
     | (dsimp only
        apply jobsWF_foldl _ (fun s x hs => jobsWF_delRefBy s _ _ hs)
        apply jobsWF_tags
-       apply jobsWF_foldl _ (fun s x hs => jobsWF_detachConv s _ _ hs)
+       apply jobsWF_foldl _ (fun s x hs => jobsWF_detachConv s _ _ _ hs)
        exact h)
 
 theorem jobsWF_viewOpen (s : St) (a) (st : Started) (h : JobsWF s) :
